@@ -21,6 +21,7 @@ from .speceval import SpecCtx
 
 class Conc:
     def index_locks(self):
+        self.atomic_fields = {}
         self.token_decls = {}     # struct type -> {token name -> (lock field, take ast, drop ast, decl)}
         self.lock_decls = {}      # struct type -> {lock field -> [guarded fields]}
         self.guard_of = {}        # (struct type, field) -> lock field
@@ -41,6 +42,9 @@ class Conc:
                             cl.ast = parse_expr(cl.text)
                         except SpecError as e:
                             self.errors.append("%s:%d: %s" % (cl.file, cl.line, e))
+                elif cl.kind == "atomic":
+                    for f in [x.strip() for x in cl.text.split("--")[0].split(",") if x.strip()]:
+                        self.atomic_fields[(t, f)] = cl
                 elif cl.kind == "token":
                     # token <name> lock <lk> take <expr> drop <expr>   (thread-local ghost, see DESIGN 2.4 "Ghost tokens")
                     m = re.match(r"^(\w+)\s+lock\s+(\w+)\s+take\s+(.*?)\s+drop\s+(.*)$", cl.text.strip(), re.S)
@@ -244,6 +248,11 @@ class Conc:
             return
         T, obj = self.struct_type_at(p)
         if T is None:
+            return
+        if (T, p.path[-1]) in self.atomic_fields and not isinstance(obj.cell, int):
+            o = self.obl("ownership", "atomic:%s.%s" % (short_t(T).rsplit(".", 1)[-1], p.path[-1]), self.cur["safety_props"])
+            o.instances += 1
+            o.failed.append({"pos": ins.get("pos"), "reason": "plain %s of field %s, which is declared atomic (only sync/atomic operations may touch it)" % ("write" if write else "read", p.path[-1])})
             return
         lname = self.guard_of.get((T, p.path[-1]))
         if lname is None:
